@@ -1,0 +1,23 @@
+//go:build verif
+// +build verif
+
+package wasp
+
+// VerifMIDPool is the packet identifier allocator as seen by the simulator.
+type VerifMIDPool interface {
+	Get() int32
+	Put(int32)
+}
+
+// VerifNewMIDPool builds the allocator used by the writer, over an arbitrary range.
+func VerifNewMIDPool(min, max int32) VerifMIDPool {
+	return newMIDPool(min, max)
+}
+
+// VerifWriterPool returns the identifier pool of a writer built by NewWriter.
+func VerifWriterPool(w Writer) VerifMIDPool {
+	if ww, ok := w.(*writer); ok {
+		return ww.midPool
+	}
+	return nil
+}
